@@ -9,7 +9,7 @@ import (
 
 func init() { pbt.Property("C12") }
 
-func TestMain(m *testing.M)  { pbt.Main(m) }
+func TestMain(m *testing.M)   { pbt.Main(m) }
 func TestProps(t *testing.T)  { pbt.RunAll(t) }
 func TestReplay(t *testing.T) { pbt.ReplayAll(t) }
 
